@@ -267,6 +267,11 @@ def m_wrapping(I, st, fr, args, path, gargs, t):
     p = I.arith_poly(st, op, a, b)
     if st.in_range(p, rlo, rhi) is True:
         return I.mk(st, ty, p)
+    cp = pis_const(st.norm(p))
+    if cp is not None:
+        # concrete operands: the wrapped value itself
+        v = (cp - rlo) % modulus + rlo
+        return K(v, ty)
     if st.tactics and rlo == 0:
         plo, phi = st.range_of(p)
         if plo is not None and plo >= 0 and st.relational_upper(p, rhi):
@@ -991,6 +996,9 @@ def m_checked_divrem(I, st, fr, args, path, gargs, t):
             st.assume(padd(a.p, pconst(rlo), -1), ZERO)
             st.assume(padd(b.p, pconst(1)), ZERO)
             return none()
+        # Some: not (a == MIN and b == -1); expressible when the divisor is -1 on this path: then a != MIN
+        if st.sign(padd(b.p, pconst(1))) == ZERO:
+            st.assume(padd(a.p, pconst(rlo), -1), NONZERO)
     return some(I.divrem(st, 'Div' if op == 'div' else 'Rem', a, b, ty))
 
 
